@@ -107,3 +107,36 @@ Definition slot_ok (prefix textkey : list N) (s : slot) : bool :=
   | Child n => negb (starts prefix n) && negb (leqb n textkey)
   | _ => true
   end.
+
+(* ---------------------------------------------------------------- default convention: single values and lists *)
+(* converters/base.py element_decode (after fix ebb313b): the first occurrence of a child is stored as a bare value
+   when its particle is single (and force_list is off), otherwise in a list; later occurrences turn a bare value into
+   a list or are appended.  element_encode flattens the dictionary in key order. *)
+Section Items.
+Variable V : Type.
+Variable single : N -> bool.      (* has_single_group && xsd_child.is_single() *)
+Variable force_list : bool.
+
+Inductive item := One (v : V) | Many (vs : list V).
+
+Fixpoint addi (k : N) (v : V) (g : list (N * item)) : list (N * item) :=
+  match g with
+  | [] => [(k, if single k && negb force_list then One v else Many [v])]
+  | (k', it) :: r =>
+      if N.eqb k' k then (k', match it with One v0 => Many [v0; v] | Many vs => Many (vs ++ [v]) end) :: r
+      else (k', it) :: addi k v r
+  end.
+Definition decode_children (l : list (N * V)) : list (N * item) :=
+  fold_left (fun g kv => addi (fst kv) (snd kv) g) l [].
+Definition encode_children (g : list (N * item)) : list (N * V) :=
+  flat_map (fun ki => match snd ki with One v => [(fst ki, v)] | Many vs => map (fun v => (fst ki, v)) vs end) g.
+
+(* the shape of a group of occurrences *)
+Definition wrap (kvs : N * list V) : N * item :=
+  match snd kvs with
+  | [v] => (fst kvs, if single (fst kvs) && negb force_list then One v else Many [v])
+  | vs => (fst kvs, Many vs)
+  end.
+End Items.
+Arguments One {V} v.
+Arguments Many {V} vs.
